@@ -15,7 +15,7 @@ LEVEL = "exploration"
 RULE = ("hostile inputs - random bytes (several distributions, 0..64 KiB), valid streams with bit flips / byte inserts / deletes "
         "/ splices / truncation, and structure-aware hostile streams from the independent wire encoder (declared frame, row and "
         "string lengths up to 2^63, table sizes up to 2^32, 10^5 entries, quoted triples nested past the protobuf recursion "
-        "limit, options rows in odd places, stream names / strings holding format directives with huge field widths on error paths, version-2 streams declaring one prefix label 3-200 times with different namespaces, gzip/zlib/bz2/xz/deflate members that would inflate to 0.3-64 MB, options rows with enum/version values the schema does not name, well-formed streams whose strings (language tag, lexical form, datatype, name, prefix, blank-node label, stream name, namespace name) are long single-class runs ending in one odd character, 10^3..10^6 empty frames alone and in front of a well-formed frame (3*10^5 of them always through all six entry points, 10^6 through two), invalid UTF-8, unknown fields, groups, one 16-64 KiB prefix (or name) entry combined with thousands of short entries overwriting 8 slots of the other table - through the entry points that keep no statement; 200-400 namespace declarations followed by 3000-20000 tiny frames; one frame of 10^5 - 3*10^5 four-byte rows) - are fed from BytesIO, "
+        "limit, options rows in odd places, stream names / strings holding format directives with huge field widths on error paths, version-2 streams declaring one prefix label 3-200 times with different namespaces, gzip/zlib/bz2/xz/deflate members that would inflate to 0.3-64 MB, options rows with enum/version values the schema does not name, well-formed streams whose strings (language tag, lexical form, datatype, name, prefix, blank-node label, stream name, namespace name) are long single-class runs ending in one odd character, 10^3..10^6 empty frames alone and in front of a well-formed frame (3*10^5 of them always through all six entry points, 10^6 through two), invalid UTF-8, unknown fields, groups, one 16-64 KiB prefix (or name) entry combined with thousands of short entries overwriting 8 slots of the other table - through the entry points that keep no statement; 200-400 namespace declarations followed by 3000-20000 tiny frames; one frame of 10^5 - 3*10^5 four-byte rows; a name / prefix / lexical form of 2000-10000 combining marks in non-canonical order used by hundreds of statements) - are fed from BytesIO, "
         "real files and non-seekable raw / buffered sources to the six parse entry points inside a watchdogged child process with faulthandler. Per input the "
         "child journals start/end, outcome, CPU time, a logical step count (sys.monitoring PY_START inside pyjelly) and the "
         "growth of the resident high-water mark. Violations: interpreter killed by a signal; a non-Exception BaseException; "
@@ -114,7 +114,7 @@ def hostile(rng):
     big = rng.choice([1 << 20, (1 << 31) - 1, 1 << 31, 1 << 32, 1 << 40, 1 << 62, (1 << 63) - 1, (1 << 64) - 1])
     kind = rng.choice(["frame-length", "row-length", "string-length", "table-size", "many-entries", "deep-nesting",
                        "odd-options", "empty-frames", "bad-utf8", "unknown-fields", "many-metadata", "nondelimited-huge",
-                       "entry-id-huge", "ref-huge", "options-repeat-flood", "awkward-strings", "awkward-strings", "enum-values", "compressed-bomb", "namespace-redeclared", "format-directive", "long-entry-many-slots", "declarations-then-many-frames", "one-huge-frame"])
+                       "entry-id-huge", "ref-huge", "options-repeat-flood", "awkward-strings", "awkward-strings", "enum-values", "compressed-bomb", "namespace-redeclared", "format-directive", "long-entry-many-slots", "declarations-then-many-frames", "one-huge-frame", "combining-marks"])
     head = wire.enc_stream([{"rows": [("options", _opts())]}], True)
     if kind == "frame-length":
         return kind, rng.choice([b"", head]) + wire.enc_varint(big) + rng.randbytes(rng.randint(0, 40))
@@ -254,6 +254,8 @@ def hostile(rng):
                 ("triple", {"s": ("iri", rng.choice([0, 9, (1 << 32) - 1]), rng.choice([17, (1 << 32) - 1])),
                             "p": ("bnode", "b"), "o": ("lit", "x", "dt", rng.choice([0, 9, (1 << 32) - 1]))})]
         return kind, wire.enc_stream([{"rows": rows}], True)
+    if kind == "combining-marks":
+        return kind, combining_marks(rng.choice([500, 2500]), rng.choice([300, 1500]), rng.choice(["name", "prefix", "literal"]))
     if kind == "one-huge-frame":
         return kind, one_huge_frame(rng.choice([100_000, 300_000]))
     if kind == "declarations-then-many-frames":
@@ -262,6 +264,27 @@ def hostile(rng):
         return kind, long_entry_many_slots(rng.choice([16, 32, 48]) << 10, rng.choice([1000, 3000]), rng.choice(["prefix", "prefix", "name"]))
     rows = [("options", _opts())] * rng.choice([100, 5000])
     return "options-repeat-flood", wire.enc_stream([{"rows": rows}], True)
+
+
+def combining_marks(k: int, refs: int, where: str) -> bytes:
+    """A string of 4k combining marks in NON-canonical order (U+0315 U+0300 U+0316 U+0334 repeated - the worst case of Unicode
+    canonical reordering) as a name / prefix entry or a lexical form, used by `refs` statements: the parser has no business
+    normalising text, least of all once per reference."""
+    marks = "a" + "\u0315\u0300\u0316\u0334" * k
+    rows = [("options", _opts(max_prefix_table_size=8, max_name_table_size=8)),
+            ("prefix", {"id": 1, "value": ("http://e/" + marks + "/") if where == "prefix" else "http://e/"}),
+            ("name", {"id": 1, "value": marks if where == "name" else "n"}), ("name", {"id": 2, "value": "m"})]
+    o = ("lit", marks, "simple", None) if where == "literal" else ("bnode", "b")
+    frames = []
+    for i in range(refs):
+        # alternate two subjects so that nothing is elided as a repeated term
+        rows.append(("triple", {"s": ("iri", 1, 1 + i % 2), "p": ("iri", 1, 1), "o": o if (where == "literal" and i % 2 == 0) else ("bnode", f"b{i % 2}")}))
+        if len(rows) >= 50:
+            frames.append({"rows": rows})
+            rows = []
+    if rows:
+        frames.append({"rows": rows})
+    return wire.enc_stream(frames, True)
 
 
 def one_huge_frame(n: int) -> bytes:
@@ -343,6 +366,8 @@ def make_inputs(rng, n: int, first_batch: bool = False) -> list:
             cls, name, data = "hostile", "option-field-extreme", wire.enc_stream([{"rows": rows}], True)
         elif first_batch and k == 2 + len(FIXED_DIRECTIVES) + len(FIXED_OPTION_EXTREMES):
             cls, name, data = "hostile", "long-entry-many-slots", long_entry_many_slots(64 << 10, 4000, "prefix")
+        elif first_batch and k == 5 + len(FIXED_DIRECTIVES) + len(FIXED_OPTION_EXTREMES):
+            cls, name, data = "hostile", "combining-marks", combining_marks(2500, 1500, "name")
         elif first_batch and k == 4 + len(FIXED_DIRECTIVES) + len(FIXED_OPTION_EXTREMES):
             cls, name, data = "hostile", "one-huge-frame", one_huge_frame(300_000)
         elif first_batch and k == 3 + len(FIXED_DIRECTIVES) + len(FIXED_OPTION_EXTREMES):
@@ -359,6 +384,8 @@ def make_inputs(rng, n: int, first_batch: bool = False) -> list:
             entries = list(ENTRY_NAMES) if k == 0 else ["generic:flat", "rdflib:grouped"]
         elif first_batch and k < 2 + len(FIXED_DIRECTIVES) + len(FIXED_OPTION_EXTREMES):
             entries = list(ENTRY_NAMES)
+        if name == "combining-marks":
+            entries = ["generic:flat", "rdflib:flat", "generic:grouped", "generic:to_graph"]
         if name == "one-huge-frame":
             entries = ["generic:flat", "rdflib:flat"]
         if name == "declarations-then-many-frames":
